@@ -270,7 +270,7 @@ func TestVerifC08Align(t *testing.T) {
 				v.Msg = fmt.Sprintf("offset=%d period=%d at unix second %d: window handed to Redis = %s s, specification %s", off, period, u0, got, w0)
 				break
 			}
-			if ttl := fmt.Sprint(int(s.TTL("al:" + key) / time.Second)); ttl != got {
+			if ttl := fmt.Sprint(int(s.TTL("al:"+key) / time.Second)); ttl != got {
 				v.OK, v.Key = false, "C08:period:align:ttl"
 				v.Msg = fmt.Sprintf("offset=%d period=%d: counter key has TTL %s s, window %s s", off, period, ttl, got)
 				break
@@ -858,6 +858,12 @@ func runC08TokenRetry(c kit.Case, cs *c08Server, store *redis.Redis, rep *kit.Re
 			return v
 		}
 		rep.Count("disturbed-reruns", 1)
+		if v.Msg == c08PortTaken {
+			// the released port was grabbed by another process: repeat the behaviour with its
+			// outages as dropped connections (the port is never released then)
+			cs.dropMode = true
+			rep.Count("port-taken-reruns-in-drop-mode", 1)
+		}
 	}
 	return v
 }
@@ -1097,7 +1103,7 @@ func c08TokenWorker(cases <-chan kit.Case, rep *kit.Reporter, dropOdd bool) {
 			store = redis.New(s.Addr()) // a breaker without history for every behaviour
 		}
 		for {
-			cs.dropMode = dropOdd && c.Index%2 == 1
+			cs.dropMode = kit.EnvInt("VERIF_DROPALL", 0) == 1 || (dropOdd && c.Index%2 == 1)
 			v := runC08TokenRetry(c, cs, store, rep)
 			if cs.lost == "" {
 				rep.Put(v)
